@@ -61,15 +61,15 @@ func genGroup(t *rapid.T, c *Case, depth int, names *[]string) GSpec {
 	case "numbered":
 		g.Num = rapid.SampledFrom([]int{1, 2, 3, 4, 5, 7, 9, 12, 20, 40}).Draw(t, "num")
 	}
-	if rapid.IntRange(0, 9).Draw(t, "nswitch") == 0 {
+	if rapid.IntRange(0, 3).Draw(t, "nswitch") == 0 {
 		if rapid.Bool().Draw(t, "non") {
 			g.OptOn = "n"
 		} else {
 			g.OptOff = "n"
 		}
 	}
-	if depth > 0 && rapid.IntRange(0, 3).Draw(t, "nest") == 0 {
-		n := rapid.IntRange(1, 2).Draw(t, "nkids")
+	if depth > 0 && rapid.IntRange(0, 2).Draw(t, "nest") == 0 {
+		n := rapid.IntRange(1, 3).Draw(t, "nkids")
 		for i := 0; i < n; i++ {
 			g.Kids = append(g.Kids, genGroup(t, c, depth-1, names))
 		}
